@@ -25,7 +25,7 @@ class Prop(CoreProp):
         prog = generate_cond(prng)
         cycles = rng.randint(*self.cycles) * (2 if tier == "thorough" else 1)
         return {"prog": prog, "sched": "eager", "cycles": cycles, "checks": ["C12"],
-                "plan": make_plan(rng, cycles, self.phase_kinds, 8, 40)}
+                "plan": make_plan(rng, cycles, self.phase_kinds, 6, 24)}
 
 
 PROP = Prop()
